@@ -185,6 +185,19 @@ def check(run, ctx):
                   decides="what one file (or one lint call) left in an analyzer/cache cannot leak into the verdict for the next file or call")
     _s6(run, ctx, L, S6)
 
+    from . import shared
+
+    S7 = run.rule("S7", "no process-lifetime memoisation (functools.lru_cache/cache) on functions whose result depends on file content", floor=1,
+                  decides="files edited between two lint calls are judged by their new state")
+    recs = shared.cached_content_readers(ctx)
+    for r_ in recs:
+        if r_["reads"]:
+            run.finding(S7, r_["func"], f"cached-reader:{r_['decorator']}", f"{r_['func']} is memoised with @{r_['decorator']} although a file read ({', '.join(r_['reads'][:2])}) is reachable from it: later calls see the content of the first", r_["loc"])
+        else:
+            run.ok(S7, r_["func"], f"@{r_['decorator']} on a function that reads no file")
+    if not recs:
+        run.ok(S7, "src", "no functools cache decorators in the package", nontrivial=False)
+
     S5 = run.rule("S5", "constant non-section metadata keys read by rules are written by Orchestrator.lint_file", floor=2)
     lf_f = repo.func(lf)
     written = set()
